@@ -115,6 +115,19 @@ CHECKS = {
             "deserialising it from three JSON renderings (plain, fully \\u-escaped, mixed) and from serde_json::Value succeeds iff parsing succeeds, with equal "
             "values; 18 non-string JSON documents (incl. 200-deep nesting) must give Err without panicking.",
             "DESIGN.md section 5, C19", TRUST),
+    "C16": ("compiler-diagnostic monitor + offline event-log checker over generated crates of macro invocations",
+            "A positive crate (one invocation per line on well-formed literals for all nine macros) must build with zero errors; the built program logs one "
+            "record per invocation (value, == and Debug-equality with run-time parsing, catch_unwind status) and the offline checker requires every invocation "
+            "exactly once, equal, not panicked. A negative crate interleaves ill-formed literals with well-formed control lines: each ill-formed line must carry a "
+            "rustc error located at that line (resolved through the expansion span chain), no control line may. Literals come from the oracle's definite zones. "
+            "Thorough: ~4000 invocations and the positive program again under Miri.",
+            "DESIGN.md section 5, C16", TRUST + " rustc's JSON diagnostics are trusted to locate errors."),
+    "C20": ("offline transcript comparison across feature configurations of one probe program",
+            "A probe using only always-available API is built once per feature configuration (impl crates: 4; facades: quick 8 / thorough 14) and executes the "
+            "same seeded script of ~218k (quick) / ~1.2M (thorough) parse, history and comparison lines; every transcript must be byte-identical outside the "
+            "character_direction column; that column must be identical among builds with the same likelysubtags setting and may differ across only for "
+            "script-less identifiers.",
+            "DESIGN.md section 5, C20", TRUST),
 }
 
 REASON_PENDING = "check not built yet in this round; design in DESIGN.md section 5"
